@@ -12,9 +12,12 @@ pub mod c10;
 pub mod c11;
 pub mod c12;
 pub mod c13;
+pub mod c14;
+pub mod c15;
 pub mod ops;
 pub mod recv;
 pub mod seqx;
+pub mod sorts;
 pub mod views;
 pub mod elem;
 pub mod exam;
@@ -22,5 +25,5 @@ pub mod exam;
 use crate::engine::Prop;
 
 pub fn all() -> Vec<&'static dyn Prop> {
-    vec![&c01::C01, &c02::C02, &c03::C03, &c04::C04, &c05::C05, &c06::C06, &c07::C07, &c08::C08, &c09::C09, &c10::C10, &c11::C11, &c12::C12, &c13::C13]
+    vec![&c01::C01, &c02::C02, &c03::C03, &c04::C04, &c05::C05, &c06::C06, &c07::C07, &c08::C08, &c09::C09, &c10::C10, &c11::C11, &c12::C12, &c13::C13, &c14::C14, &c15::C15, &sorts::C16, &sorts::C17]
 }
